@@ -180,6 +180,12 @@ fn vc05_rtp_genuine_after_forgery() {
     leak(r); leak(q); leak(p); leak(tx); leak(rx);
 }
 
+// Truncation harnesses (genuine packet with its last 1..3 bytes cut off) were written and withdrawn: with the
+// ideal-MAC model the tag of the *shortened* input is a fresh value constrained only to differ from earlier
+// tags in its first byte, and the solver chooses it equal to the shifted window of the old packet that now sits
+// in the tag position -- a collision of the model, not a defect of rustrtc (DESIGN §9.3). Truncation is therefore
+// outside the C05 claim.
+
 fn forged_rtcp(profile: SrtpProfile) {
     let ssrc: u32 = kani::any();
     let (mut tx, mut rx) = pair(profile, ssrc);
